@@ -5,6 +5,7 @@ pub mod h_tree;
 pub mod h_pack;
 pub mod h_melda;
 pub mod h_c08;
+pub mod h_c09;
 pub mod h_c02;
 pub mod h_c12;
 pub mod h_hist;
@@ -23,6 +24,8 @@ pub fn dispatch(name: &str) -> bool {
         "h_tree::tree_rule" => h_tree::tree_rule(),
         "h_pack::pack_roundtrip" => h_pack::pack_roundtrip(),
         "h_melda::smoke" => h_melda::smoke(),
+        "h_c09::commit_faults" => h_c09::commit_faults(),
+        "h_c09::meld_faults" => h_c09::meld_faults(),
         "h_c02::delivery" => h_c02::delivery(),
         "h_c12::merged_arrays" => h_c12::merged_arrays(),
         "h_c12::maintenance" => h_c12::maintenance(),
